@@ -213,36 +213,18 @@ func (c *Ctx) flow(fn *core.Func, alias map[string]string, quiet ...string) *gea
 	if fn.Decl.Recv != nil && len(fn.Decl.Recv.List[0].Names) > 0 {
 		spec.recv = p.Info.Defs[fn.Decl.Recv.List[0].Names[0]]
 	}
-	// a parameter is named as on the reviewed tree (by position), so renaming it
+	// parameters are spelled as on the reviewed tree (Prog.Rename), so renaming one
 	// changes nothing a rule sees
-	pinned := pinnedParams[fn.Name]
-	i := 0
 	for _, f := range fn.Decl.Type.Params.List {
-		if len(f.Names) == 0 {
-			i++
-		}
 		for _, n := range f.Names {
 			name := n.Name
-			if i < len(pinned) && pinned[i] != "_" && n.Name != "_" {
-				name = pinned[i]
+			if r, ok := p.Rename[p.Info.Defs[n]]; ok {
+				name = r
 			}
-			i++
 			if a, ok := alias[name]; ok {
 				spec.alias[p.Info.Defs[n]] = a
 			} else {
 				spec.alias[p.Info.Defs[n]] = name
-			}
-		}
-	}
-	if i != len(pinned) && len(pinned) > 0 {
-		// the signature changed: fall back to the current spelling
-		for _, f := range fn.Decl.Type.Params.List {
-			for _, n := range f.Names {
-				if a, ok := alias[n.Name]; ok {
-					spec.alias[p.Info.Defs[n]] = a
-				} else {
-					spec.alias[p.Info.Defs[n]] = n.Name
-				}
 			}
 		}
 	}
